@@ -49,6 +49,7 @@ type clientState struct {
 	changed    *handed
 	tagsSeen   map[int]map[string]bool
 	skipped    int
+	panicsRun  int
 	unrecorded int // long histories: calls executed and judged after the first 2000, not kept
 }
 
@@ -182,8 +183,11 @@ func Run(p *Plan, ch simsync.Chooser) *Outcome {
 			long := len(calls[c]) > 5000
 			for i, cl := range calls[c] {
 				if strings.HasPrefix(refs[c][i].canon, "panic:") {
-					st.skipped++ // whether an input crashes is not the subject here (C13)
-					continue
+					if !p.ExecPanics {
+						st.skipped++ // whether an input crashes is not the subject here (C13)
+						continue
+					}
+					st.panicsRun++ // ... but what a crashing call leaves behind for the calls after it is (C12), and it must crash the same way in company (C11)
 				}
 				rec := CallRec{Client: c, Call: cl}
 				rec.Invoke = simsync.Stamp()
@@ -286,6 +290,7 @@ func Run(p *Plan, ch simsync.Chooser) *Outcome {
 		}
 		nrec += st.unrecorded
 		out.Counters.Add("calls_skipped_solo_panic", int64(st.skipped))
+		out.Counters.Add("calls_that_panic_executed", int64(st.panicsRun))
 	}
 	out.ResultHash = h
 	out.Counters.Add("calls", int64(nrec))
